@@ -50,6 +50,8 @@ type LoopContract struct {
 }
 
 type AssertContract struct {
+	Snap     string // non-empty: not an assertion but a named snapshot of an expression's value at the point
+	SnapType string
 	When   string // "before" or "after"
 	Anchor string // statement text (prefix, whitespace-squeezed)
 	Clause Clause
@@ -101,7 +103,7 @@ type ContractFile struct {
 	Lemmas  []*Lemma
 }
 
-var kwRe = regexp.MustCompile(`^(import|option|spec|end|func|extern|props|requires|ensures|assumes|old|inline|noinline|trusted|strict|partial|locktypestate|pure|modifies|loop|invariant|decreases|assert|lossless|atomic-step|lemma|axiom|iface)\b`)
+var kwRe = regexp.MustCompile(`^(import|option|spec|end|func|extern|props|requires|ensures|assumes|old|inline|noinline|trusted|strict|partial|locktypestate|pure|modifies|loop|invariant|decreases|assert|snap|lossless|atomic-step|lemma|axiom|iface)\b`)
 var tagRe = regexp.MustCompile(`^\[([A-Za-z0-9_, ]+)\]\s*`)
 var labelRe = regexp.MustCompile(`^([a-zA-Z_][a-zA-Z0-9_]*):\s+`)
 
@@ -284,7 +286,7 @@ func ParseContractFile(path, source string) (*ContractFile, error) {
 				cur.Lossless = true
 			case "atomic-step":
 				cur.Steps = append(cur.Steps, parseClause(d.rest, d.line))
-			case "assert":
+			case "assert", "snap":
 				rest := stripTrail(d.rest)
 				fs := strings.SplitN(rest, " ", 2)
 				if len(fs) != 2 || (fs[0] != "before" && fs[0] != "after" && fs[0] != "in") {
@@ -299,7 +301,19 @@ func ParseContractFile(path, source string) (*ContractFile, error) {
 					return nil, fmt.Errorf("%s:%d: unterminated anchor", path, d.line)
 				}
 				ac := &AssertContract{When: fs[0], Anchor: r2[1 : 1+j], Line: d.line}
-				ac.Clause = parseClause(strings.TrimSpace(r2[2+j:]), d.line)
+				body := strings.TrimSpace(r2[2+j:])
+				if d.kw == "snap" {
+					// snap before "stmt" name type: expr
+					k := strings.Index(body, ":")
+					hd := strings.Fields(body[:max(k, 0)])
+					if k < 0 || len(hd) != 2 {
+						return nil, fmt.Errorf("%s:%d: snap needs before|after \"stmt\" name type: expr", path, d.line)
+					}
+					ac.Snap, ac.SnapType = hd[0], hd[1]
+					ac.Clause = Clause{Expr: strings.TrimSpace(body[k+1:]), Line: d.line}
+				} else {
+					ac.Clause = parseClause(body, d.line)
+				}
 				cur.Asserts = append(cur.Asserts, ac)
 			case "invariant":
 				if curLoop == nil {
